@@ -51,7 +51,7 @@ def cases(tier, seed):
         t0 = T0S[(i // len(INTERVALS)) % len(T0S)] if i < len(INTERVALS) * len(T0S) else rng.choice(T0S)
         nz = rng.choice([2, 3, 5, 9, 50, 257])
         route = 'segy' if i % 4 else 'numpy'
-        follow = rng.choice([None, None, 'crop', 'reblock', 'export'])
+        follow = rng.choice([None, None, 'crop', 'reblock', 'export', 'window'])
         out.append({'id': 'g:%d' % i, 'il': il[:3], 'xl': xl[:3], 'ilk': il[3], 'xlk': xl[3], 'dt': dt, 't0': t0, 'nz': nz, 'route': route,
                     'follow': follow, 'fmt': rng.choice([1, 5]), 'rate': 2 if follow == 'reblock' else rng.choice([4, 8, 1]), 'cost': 1})
     # ZGY sources written through pyzgy: float sample axis (start and increment need not be whole ms); line numbers are kept in
@@ -151,6 +151,16 @@ def run_case(case, ctx):
                     cv.convert_to_adv_sgz(o2)
             with SgzReader(o2) as r:
                 compare('after-reblock', r.ilines, r.xlines, r.zslices, r.tracecount, r.structured, s_il, s_xl, s_z, s_n, bad)
+        elif fol == 'window' and case['route'] == 'segy' and nI >= 2 and nX >= 2:
+            # conversion of an ordinal window of the source: axes are the corresponding sub-ranges
+            a = rng.randrange(nI - 1)
+            b = rng.randrange(a + 2, nI + 1) if a + 2 <= nI else nI
+            c = rng.randrange(nX - 1)
+            d = rng.randrange(c + 2, nX + 1) if c + 2 <= nX else nX
+            if b - a >= 2 and d - c >= 2:
+                conv.convert_segy(sgy, o2, case['rate'], (4, 4, -1), detection='thorough', window=(a, b, c, d), reduce_iops=rng.random() < 0.5)
+                with SgzReader(o2) as r:
+                    compare('windowed', r.ilines, r.xlines, r.zslices, r.tracecount, r.structured, s_il[a:b], s_xl[c:d], s_z, (b - a) * (d - c), bad)
         elif fol == 'export' and case['route'] == 'segy':
             e = sc.file('e.sgy')
             with env.quiet():
@@ -170,7 +180,7 @@ def run_case(case, ctx):
 def finalize(tier, cases, results, counters, strata):
     reasons = []
     need = ['dt:%d' % d for d in INTERVALS] + ['t0:%d' % t for t in T0S] + ['ilstep:%d' % s for s in STEPS] + \
-           ['ilstart:max', 'ilstart:min', 'xlstart:max', 'xlstart:min', 'ilstart:span', 'xlstart:span', 'route:segy', 'route:numpy', 'route:zgy', 'follow:crop', 'follow:reblock', 'follow:export']
+           ['ilstart:max', 'ilstart:min', 'xlstart:max', 'xlstart:min', 'ilstart:span', 'xlstart:span', 'route:segy', 'route:numpy', 'route:zgy', 'follow:crop', 'follow:reblock', 'follow:export', 'follow:window']
     need += ['zgy-dz:%s' % d for d in ZGY_DZ] + ['zgy-z0:%s' % z for z in ZGY_Z0[:3]]
     for s in need:
         if s not in strata:
